@@ -21,7 +21,7 @@ from metador_core.container.wrappers import MetadorDataset, MetadorGroup, Metado
 ENCODED = list(C.ENCODED) + [MetadorNode.parent.fget, MetadorNode.file.fget, MetadorNode.restrict,
                              MetadorNode._child_node_kwargs, MetadorDataset.__getattr__, MetadorGroup.visititems]
 
-STARTS = ["/", "g", "g/h", "g/e", "g/h/f"]
+STARTS = ["/", "g", "g/h", "g/e", "g/h/f", "container"]
 REFUSED = (UnsupportedOperationError, ValueError)
 
 
@@ -134,7 +134,10 @@ def _acl_key(x):
 
 def closure_native(drvname, start, ro, lo, so, depth):
     drv, mc = build(drvname)
-    n = mc[start] if start != "/" else mc["/"]
+    if start == "container":  # the container object itself is restricted (in place)
+        n, start = mc, "/"
+    else:
+        n = mc[start] if start != "/" else mc["/"]
     n = n.restrict(read_only=ro, local_only=lo, skel_only=so)
 
     def inside(name, root):
@@ -234,7 +237,7 @@ def closure_native(drvname, start, ro, lo, so, depth):
 
 def closure(ro: bool, lo: bool, so: bool, s: int) -> bool:
     """
-    pre: 0 <= s < 5
+    pre: 0 <= s < 6
     post: _
     """
     flags = (True if ro else False, True if lo else False, True if so else False)
